@@ -440,6 +440,44 @@ def coq_vevent(e):
     return e[0] if len(e) == 1 else '%s %d' % (e[0], e[1])
 
 
+def versionhash_clauses(ck, rng):
+    """a change of scanner version is a change of the version hash: whenever the modification time of one scanner source
+    differs - by whole seconds or by a fraction of a second - the real _get_versionhash gives another value, and the same times
+    give the same value"""
+    import giscanner.cachestore as cs
+    real_os = cs.os
+    times = {}
+
+    class St(object):
+        def __init__(self, t):
+            self.st_mtime = t
+            self.st_mtime_ns = int(t * 1e9)
+
+    def stat(path, *a, **k):
+        return St(times.setdefault(path, 1700000000.25))
+    cs.os = Proxy(real_os, dict(stat=stat))
+    try:
+        base = cs._get_versionhash()
+        again = cs._get_versionhash()
+        ck.count_case(dict(scenario='version hash, unchanged sources', files=len(times)), kind='versionhash')
+        if base != again:
+            ck.failing_input('the version hash changes although no source changed', dict(files=sorted(times)[:3]))
+        paths = sorted(times)
+        for delta in (0.5, 0.25, 1.0, 86400.0, -0.125, 0.001):
+            pth = rng.choice(paths)
+            old = times[pth]
+            times[pth] = old + delta
+            h = cs._get_versionhash()
+            times[pth] = old
+            ck.count_case(dict(scenario='version hash, one source modified', delta=delta), kind='versionhash')
+            if h == base:
+                ck.failing_input('a change of scanner version is not detected: one scanner source was modified %s seconds later and the '
+                                 'version hash is the same, so no entry would be discarded' % delta,
+                                 dict(source=os.path.basename(pth), mtime_before=old, mtime_after=old + delta))
+    finally:
+        cs.os = real_os
+
+
 def truncation_sweep(ck, thorough):
     """an unreadable or truncated entry is discarded instead of raising: every cut of a real entry"""
     import pickle as real_pickle
@@ -620,6 +658,7 @@ def main(tier, seed):
                           'on %d schedules' % len(bad), dict(events=[list(e) for e in ev], results={str(k): v for k, v in res.items()}))
     # ---- truncated entries
     truncation_sweep(ck, tier == 'thorough')
+    versionhash_clauses(ck, rng)
     # ---- scanner-version change (Model/C18V.v)
     vruns = [V_WITNESS, V_WITNESS2] + [gen_version_events(rng) for _ in range(60 if tier == 'quick' else 800)]
     vres = []
